@@ -14,7 +14,7 @@ RULE = (
     "2, 4, 8 and 16 threads start together on a barrier and each loops over its own seeded Tasklang programs "
     "(harness batch items of 3 kinds, DebugBatchItems, contexts, scoped values, sync re-entry, failures), a "
     "hand-off round in which every thread computes with .value() a task object that the next thread built but did not start "
-    "(alone: built and computed on the same thread), a deduplicate scenario in which every thread calls the same function with the same arguments, batch-free programs driven "
+    "(alone: built and computed on the same thread), a deduplicate scenario in which every thread calls the same functions (default key and caller-supplied keygetter) with the same arguments, batch-free programs driven "
     "through asyncio.run(fn.asyncio()) in one thread out of three per round (the others must never see asyncio mode), and - in separate "
     "process-wide configurations - COLLECT_PERF_STATS with profiler.flush() after every round (no reset at thread "
     "start). sys.setswitchinterval(1e-6) plus time.sleep(0) at harness hook points (task steps, flush bodies, context "
@@ -114,13 +114,24 @@ def fns():
         v = yield harness.HItem(st["rt"], 0, "dd", ("dd", x))
         return ("dd", x, threading.get_ident())
 
+    # the same with a caller-supplied key function (the thread must still be part of the scope)
+    @deduplicate(keygetter=lambda args, kwargs: ("k", args[0] if args else kwargs["x"]))
+    @A()
+    def ddk(x, salt=0):
+        st = _state["tls"].cur
+        st["ddk_exec"].append(threading.get_ident())
+        v = yield harness.HItem(st["rt"], 0, "ddk", ("ddk", x))
+        return ("ddk", x, threading.get_ident())
+
     @A()
     def dd_round(x):
         t1 = dd.asynq(x)
         t2 = dd.asynq(x=x)
+        t3 = ddk.asynq(x)
+        t4 = ddk.asynq(x, salt=1)
         st = _state["tls"].cur
-        st["dd_tasks"] = (t1, t2)
-        v = yield t1, t2
+        st["dd_tasks"] = (t1, t2, t3, t4)
+        v = yield t1, t2, t3, t4
         return v
 
     _state["dd"] = dd
@@ -234,7 +245,7 @@ def loop(tid, nthreads, rounds, seed, perf, out, barrier=None):
                 viol.append(("asyncio-mode-left-on-after-asyncio-run", {"thread": tid}))
             digest.append(("asyncio", repr(ao), tl.digest(rt.log)))
         # deduplicate: same function, same arguments in every thread
-        st = {"dd_exec": [], "rt": None, "dd_tasks": None}
+        st = {"dd_exec": [], "ddk_exec": [], "rt": None, "dd_tasks": None}
         F["tls"].cur = st
         rt = harness.HarnessRT({"nodes": [], "kinds": 1}, prio=PRIO)
         rt.label = "T%d" % tid
@@ -250,8 +261,10 @@ def loop(tid, nthreads, rounds, seed, perf, out, barrier=None):
         me = threading.get_ident()
         if st["dd_exec"] != [me]:
             viol.append(("deduplicated-body-executions", {"thread": tid, "executions_in_this_thread": len(st["dd_exec"]), "foreign": [x for x in st["dd_exec"] if x != me][:3]}))
-        if isinstance(v, tuple) and len(v) == 2 and v[0] != ("dd", 7, me):
-            viol.append(("deduplicated-result-from-another-thread", {"thread": tid, "value": repr(v)[:100]}))
+        if st["ddk_exec"] != [me]:
+            viol.append(("deduplicated-body-executions", {"thread": tid, "keygetter": "custom", "executions_in_this_thread": len(st["ddk_exec"]), "foreign": [x for x in st["ddk_exec"] if x != me][:3]}))
+        if isinstance(v, tuple) and len(v) == 4 and (v[0] != ("dd", 7, me) or v[1] != ("dd", 7, me) or v[2] != ("ddk", 7, me) or v[3] != ("ddk", 7, me)):
+            viol.append(("deduplicated-result-from-another-thread", {"thread": tid, "value": repr(v)[:160]}))
         if st["dd_tasks"] is not None:
             for t in st["dd_tasks"]:
                 o = DEDUP_OWNER.setdefault(id(t), (tid, t))
